@@ -33,7 +33,7 @@ CMP = ("x", "fun", "jac", "nfev", "njev", "nit", "sk", "yk")
 
 def floors(tier):
     return {"callback_states": 300, "states_vs_maxiter_run": 300, "retained_states_rechecked": 800, "crash_points": 500,
-            "restarts_from_retained_state": 500, "callback_free_runs_compared": 60, "callback_free_runs_compared_with_objective_redefined": 60, "callback_free_runs_compared_with_nested_run_in_callback": 30, "problems_with_reused_gradient_buffer": 20,
+            "restarts_from_retained_state": 500, "callback_free_runs_compared": 60, "callback_free_runs_compared_with_objective_redefined": 60, "callback_free_runs_compared_with_nested_run_in_callback": 30, "problems_with_reused_gradient_buffer": 20, "finite_difference_restarts_from_retained_state": 100,
             "ufd_runs_stopped_by:FTOL": 20, "continuations_compared_to_the_end": 400, "continuations_through_a_failed_line_search": 40, "__nontrivial__": 300}
 
 
@@ -54,8 +54,8 @@ def cases(tier, seed):
         if i % 4 == 1:
             # long runs with a starved line search: several failed line searches (memory reboots) inside one run; the crash
             # enumeration is limited to the first callbacks, every state is followed to the end of the run
-            spec["problem"] = gen.rand_spec(rng, ("rosenbrock", "rosenbrock", "beale", "rastrigin"), nmax=4, nmin=2, boxes=("none", "mixed", "lower"),
-                                            starts=("interior", "face"))
+            spec["problem"] = gen.rand_spec(rng, ("rosenbrock", "rosenbrock", "beale", "rastrigin", "qp_nan_region", "qp_inf_region", "edge_walk", "edge_walk"),
+                                            nmax=4, nmin=2, boxes=("none", "mixed", "lower"), starts=("interior", "face"))
             spec.update(K=int(rng.integers(20, 45)), maxls=int(gen.pick(rng, [1, 2, 2, 3])), long=True)
         yield spec
     # ... nor a run with finite-difference gradients whose callback runs another, independent optimisation (a probe with other
@@ -66,6 +66,12 @@ def cases(tier, seed):
         yield {"kind": "nested_callback", "problem": ps, "maxcor": int(rng.integers(1, 7)), "jac": gen.pick(rng, [None, "2-point", "3-point"]),
                "inner_jac": gen.pick(rng, [None, "2-point", "3-point"]), "inner_eps": float(gen.pick(rng, [1e-3, 1e-5])),
                "inner_rel": gen.pick(rng, [None, 1e-2]), "inner_box": gen.pick(rng, ["none", "boxed", "lower"]), "K": int(rng.integers(3, 9))}
+    # finite-difference gradients with the user's own steps: the state kept after iteration k restarts into the same iterate k+1
+    for i in range(60 if tier == "quick" else 1500):
+        ps = gen.rand_spec(rng, ("qp", "qp_quartic", "rosenbrock", "styblinski_tang"), nmax=5, nmin=2, boxes=("none", "mixed", "boxed", "lower"),
+                           starts=("interior", "face"), condmax=1e2)
+        yield {"kind": "fd_restart", "problem": ps, "maxcor": int(rng.integers(1, 7)), "jac": gen.pick(rng, ["2-point", "3-point", None]),
+               "rel": gen.pick(rng, [None, 1e-6, 1e-3, 1e-2]), "eps": float(gen.pick(rng, [1e-8, 1e-6])), "K": int(rng.integers(3, 9))}
     # a callback that returns False must not alter a run whose objective is redefined on the fly either (relative-reduction / target stops)
     nu = 120 if tier == "quick" else 3000
     for i in range(nu):
@@ -212,6 +218,44 @@ def run_nested_callback(spec, out):
     out.sample = dict(spec=spec, callbacks=len(b.cb))
 
 
+def run_fd_restart(spec, out):
+    P = gen.make_problem(spec["problem"])
+    tags = dict(family=P.spec["family"], kind="fd_restart", mode=str(spec["jac"]))
+    base = dict(jac=spec["jac"], maxcor=spec["maxcor"], maxls=20, ftol=0.0, gtol=1e-10, maxfun=100000, eps=spec["eps"])
+    if spec["jac"] is not None and spec["rel"] is not None:
+        base["finite_diff_rel_step"] = spec["rel"]
+    name = f"{P.spec['family']} n={P.n} jac={spec['jac']} rel_step={spec['rel']} eps={spec['eps']:g}"
+    main_tr = probes.run_min(P, dict(base, maxiter=spec["K"], cb="never"))
+    if main_tr.exc is not None:
+        out.count("runs_raised")
+        return
+    out.count("callback_states", len(main_tr.cb))
+    for j, rec in enumerate(main_tr.cb):
+        k = int(rec["snap"]["nit"])
+        if k >= spec["K"]:
+            continue
+        want = probes.run_min(P, dict(base, maxiter=k + 1))
+        st = rec["ref"]
+        rs = probes.run_min(P, dict(base, maxiter=k + 1), checkpoint=st, x0=np.array(st.x, dtype=float, copy=True))
+        out.count("restarts_from_retained_state")
+        out.count("finite_difference_restarts_from_retained_state")
+        if rs.exc is not None or want.exc is not None:
+            out.violate("restart_from_retained_state_raised", f"{name}: restart from the state of callback #{j} raised {(rs.exc or want.exc)!r}", **tags)
+            return
+        e = relerr(rs.result.x, want.result.x)
+        out.maxi("max_fd_recovery_relerr", e)
+        if rs.result.nit == want.result.nit and not (e <= 1e-6):
+            if (rec["snap"]["sk"] is not None and rec["snap"]["sk"].shape[0] > P.n) or probes.grazes_bound(st.x, P.lb, P.ub):
+                out.count("skipped_rounding_sensitive_step")
+                continue
+            out.violate("recovery_differs_from_uninterrupted_run", f"{name}: restart from the state of callback #{j} (nit={k}) gives an iterate {k + 1} that differs by "
+                        f"{e:.3e} (relative) from the uninterrupted run's (finite-difference tolerance 1e-6)", **tags)
+            return
+    out.nontrivial = len(main_tr.cb) >= 2
+    out.key = f"fd_restart/{P.spec['family']}/{P.spec['seed']}/{spec['jac']}/{spec['rel']}"
+    out.sample = dict(spec=spec, callbacks=len(main_tr.cb))
+
+
 def e2e_key(msg):
     from ..e2e import MSG_KEY
 
@@ -222,6 +266,9 @@ def run(spec):
     out = Outcome()
     if spec.get("kind") == "ufd_callback":
         run_ufd_callback(spec, out)
+        return out
+    if spec.get("kind") == "fd_restart":
+        run_fd_restart(spec, out)
         return out
     if spec.get("kind") == "nested_callback":
         run_nested_callback(spec, out)
